@@ -43,6 +43,8 @@ fn main() {
             println!("property={} tier={} VERIF_SEED={} workers={}", args[2], tier.name(), harness::base_seed(), harness::n_workers());
             match args[2].as_str() {
                 "C07" => props::c07::check(tier),
+                "C06" => props::c06::check(tier),
+                "C08" => props::c08::check(tier),
                 "C01" | "C02" | "C03" | "C04" | "C05" | "C18" => props::hprops::check(&args[2], tier),
                 _ => {
                     eprintln!("HARNESS-ERROR unknown property {}", args[2]);
@@ -64,6 +66,8 @@ fn main() {
             });
             match v.property.as_str() {
                 "C07" => props::c07::replay(&v),
+                "C06" => props::c06::replay(&v),
+                "C08" => props::c08::replay(&v),
                 "C01" | "C02" | "C03" | "C04" | "C05" | "C18" => props::hprops::replay(&v),
                 _ => {
                     eprintln!("HARNESS-ERROR unknown property {}", v.property);
